@@ -5,6 +5,7 @@ import (
 	"encoding/json"
 	"fmt"
 	"net/http"
+	"net/url"
 	"strconv"
 	"strings"
 	"time"
@@ -36,6 +37,11 @@ type HTTPCell struct {
 	Date         string `json:"date"`          // "" | now | now-10s
 	DefaultTTL   int    `json:"default_ttl_s"`
 	Method       string `json:"method"`
+	// Through: "" = the endpoint of a generic contextualizer; "metadata-endpoint" = the metadata endpoint of a jwt
+	// authenticator (whose http_cache has defaults of its own when it is not configured at all)
+	Through string `json:"through,omitempty"`
+	// TTLOmitted: http_cache is configured with `enabled: true` only (default_ttl then is 0)
+	TTLOmitted bool `json:"default_ttl_omitted,omitempty"`
 }
 
 // Cell is one point of the configuration alphabet.
@@ -757,8 +763,106 @@ func (w *world) buildContextualizer(over config.MechanismConfig) error {
 
 // --- RFC 7234 cache of an endpoint ----------------------------------------------
 
+// the RFC 7234 layer in front of the metadata endpoint of a jwt authenticator: the document names the jwks_uri, which
+// carries the time the document was generated, so that the key request tells which document was in use.
+func (w *world) buildHTTPCacheMetadata() error {
+	h := w.cell.HTTP
+	fix := getFixture()
+
+	hc := map[string]any{"enabled": true}
+	if !h.TTLOmitted {
+		hc["default_ttl"] = durStr(h.DefaultTTL)
+	}
+
+	conf := map[string]any{
+		"metadata_endpoint": map[string]any{
+			"url": "http://" + hostAPI + "/meta", "disable_issuer_identifier_verification": true, "http_cache": hc,
+		},
+		"trust_store": fix.trustPath,
+		"cache_ttl":   "0s", // only the RFC 7234 layer caches
+	}
+
+	f, err := factoryFor(&config.MechanismPrototypes{Authenticators: []config.Mechanism{{ID: "m", Type: "jwt", Config: conf}}})
+	if err != nil {
+		return err
+	}
+
+	a, err := f.CreateAuthenticator("", "m", nil)
+	if err != nil {
+		return err
+	}
+
+	w.tr.Handlers[hostAPI] = func(r *env.Recorded) (*http.Response, error) {
+		now := time.Now().UTC()
+
+		return jsonReply(r, map[string]any{"issuer": "iss", "jwks_uri": fmt.Sprintf("http://%s/jwks?gen=%d", hostIDP, now.Unix())},
+			h.responseHeaders(now))
+	}
+
+	jwks := fix.jwksFor(nil)
+
+	var gen *time.Time
+
+	w.tr.Handlers[hostIDP] = func(r *env.Recorded) (*http.Response, error) {
+		if u, perr := url.Parse(r.URL); perr == nil {
+			if n, cerr := strconv.ParseInt(u.Query().Get("gen"), 10, 64); cerr == nil {
+				t := time.Unix(n, 0)
+				gen = &t
+			}
+		}
+
+		return env.Reply(nil, http.StatusOK, "application/json", jwks), nil
+	}
+
+	w.req = func(w *world) handed {
+		ctx := w.ctx()
+		ctx.ReqHeader["Authorization"] = "Bearer " + fix.jwt
+		gen = nil
+
+		if _, err := a.Execute(ctx); err != nil {
+			return handed{err: err.Error()}
+		}
+
+		if gen == nil {
+			return handed{err: "the keys were not asked for at a jwks_uri of a metadata document"}
+		}
+
+		return handed{ok: true, issuedAt: gen, what: fmt.Sprintf("metadata document generated T0%+d", int(gen.Sub(env.T0)/time.Second))}
+	}
+
+	return nil
+}
+
+func (h *HTTPCell) responseHeaders(now time.Time) map[string]string {
+	hdr := map[string]string{}
+
+	if h.CacheControl != "" {
+		hdr["Cache-Control"] = h.CacheControl
+	}
+
+	switch h.Expires {
+	case "past":
+		hdr["Expires"] = now.Add(-time.Hour).Format(http.TimeFormat)
+	case "+5s":
+		hdr["Expires"] = now.Add(5 * time.Second).Format(http.TimeFormat)
+	}
+
+	switch h.Date {
+	case "now":
+		hdr["Date"] = now.Format(http.TimeFormat)
+	case "now-10s":
+		hdr["Date"] = now.Add(-10 * time.Second).Format(http.TimeFormat)
+	}
+
+	return hdr
+}
+
 func (w *world) buildHTTPCache() error {
 	h := w.cell.HTTP
+
+	if h.Through == "metadata-endpoint" {
+		return w.buildHTTPCacheMetadata()
+	}
 
 	conf := map[string]any{
 		"endpoint": map[string]any{
@@ -780,25 +884,7 @@ func (w *world) buildHTTPCache() error {
 
 	w.tr.Handlers[hostAPI] = func(r *env.Recorded) (*http.Response, error) {
 		now := time.Now().UTC()
-		hdr := map[string]string{}
-
-		if h.CacheControl != "" {
-			hdr["Cache-Control"] = h.CacheControl
-		}
-
-		switch h.Expires {
-		case "past":
-			hdr["Expires"] = now.Add(-time.Hour).Format(http.TimeFormat)
-		case "+5s":
-			hdr["Expires"] = now.Add(5 * time.Second).Format(http.TimeFormat)
-		}
-
-		switch h.Date {
-		case "now":
-			hdr["Date"] = now.Format(http.TimeFormat)
-		case "now-10s":
-			hdr["Date"] = now.Add(-10 * time.Second).Format(http.TimeFormat)
-		}
+		hdr := h.responseHeaders(now)
 
 		return jsonReply(r, map[string]any{"gen": now.Unix()}, hdr)
 	}
